@@ -686,7 +686,7 @@ class ExpressionValue(Value):
         if self.operation == "+":
             return NumericValue(address + additional_value, size_hint=4, mode=ExplicitAddressingMode.EXTENDED)
         elif self.operation == "-":
-            return NumericValue(address - additional_value, size_hint=4, mode=ExplicitAddressingMode.EXTENDED)
+            return NumericValue((address - additional_value) & 0xFFFF, size_hint=4, mode=ExplicitAddressingMode.EXTENDED)
         elif self.operation == "*":
             return NumericValue(address * additional_value, size_hint=4, mode=ExplicitAddressingMode.EXTENDED)
         else:
